@@ -49,7 +49,9 @@ def number_instr(draw):
     ins = {}
     if k == 0:
         ins['value'] = draw(st.sampled_from(['count(preceding-sibling::*) + 1', 'count(preceding::*) + 1', '3', '26', '27', '52', '703', '4', '9', '14', '40', '90', '400', '1999', '3999',
-                                             'count(ancestor::*) * 1000 + 1', '1000000', '123456', 'string-length(name()) + 25', '2.5', '1.49']))
+                                             'count(ancestor::*) * 1000 + 1', '1000000', '123456', 'string-length(name()) + 25', '2.5', '1.49',
+                                             # carries of the alphabetic numbering: ...YZ, ZZ -> AAA, ZY/ZZ borders, and a running range
+                                             '676', '677', '702', '1352', '17576', '18278', '18279', '475254', 'count(preceding::node()) * 13 + 650', 'count(preceding::node()) * 26 + 17550']))
     else:
         ins['level'] = draw(st.sampled_from(['single', 'single', 'multiple', 'multiple', 'any', 'any', None]))
         if draw(st.integers(0, 2)) > 0:
